@@ -288,7 +288,10 @@ Record rprobe := {
   rp_impl_named : option string;    (* MatchNodeUpstream / MatchSubscriptionUpstream *)
   rp_impl_dname : string;           (* resolvingDialer.upstreamName *)
   rp_impl_dcontrol : string;        (* resolvingDialer.controlHost *)
-  rp_impl_plan : N }.               (* observed through LookupIPAddr: plan_code, 302 unwrapped, 1000+class *)
+  rp_impl_plan : N;                 (* observed through LookupIPAddr: plan_code, 302 unwrapped, 1000+class *)
+  rp_ver : N;                       (* family the caller asked for: 4, 6, 0 = both *)
+  rp_impl_sent : list (N * N);      (* questions that reached an upstream: (qtype, upstream), in order *)
+  rp_impl_by : N }.                 (* who produced the result: 0 upstreams, 300 bootstrap, 301 base, 302 unwrapped, 1000+class *)
 
 Record rcase := {
   rk_rc : rconfig;
@@ -331,7 +334,9 @@ Definition rprobe_question (p : rprobe) : question :=
 
 (* error codes of the selector probes (100 + probe index, code):
    21 named impl<>model  22 named impl<>spec  23 named model<>spec  24 dialer fields do not carry the named upstream / control host
-   31 plan impl<>model   32 plan impl<>spec   33 plan model<>spec *)
+   31 plan impl<>model   32 plan impl<>spec   33 plan model<>spec
+   41 questions sent per family impl<>model   42 impl<>spec (a family's question went to another upstream than the first
+      match for that (name, qtype) says, or was sent although asis/reject)   43 model<>spec *)
 Fixpoint check_rprobes (rc : rconfig) (wf : bool) (r : option router) (ps : list rprobe) (n : N) : list (N * N) :=
   match ps with
   | [] => []
@@ -351,6 +356,12 @@ Fixpoint check_rprobes (rc : rconfig) (wf : bool) (r : option router) (ps : list
                       ++ (if opt_str_eqb named_m named_s then [] else [(100 + n, 23)]) else [])
        ++ (if String.eqb (rp_impl_dname p) (match rp_impl_named p with Some u => u | None => ""%string end)
               && String.eqb (rp_impl_dcontrol p) (m_host m) then [] else [(100 + n, 24)])
+       ++ (let pair_eqb := fun (a b : N * N) => (fst a =? fst b) && (snd a =? snd b) in
+           let '(sent_m, by_m) := dialer_lookup ro named_m (m_host m) (rp_lookup p) (rp_ver p) (ideal_bm (ro_req ro) q) q in
+           let '(sent_s, by_s) := lookup_spec rc named_s (m_host m) (rp_lookup p) (rp_ver p) q in
+           (if list_eqb pair_eqb sent_m (rp_impl_sent p) && (by_m =? rp_impl_by p) then [] else [(100 + n, 41)])
+           ++ (if wf then (if list_eqb pair_eqb sent_s (rp_impl_sent p) && (cls by_s =? cls (rp_impl_by p)) then [] else [(100 + n, 42)])
+                          ++ (if list_eqb pair_eqb sent_m sent_s && (cls by_m =? cls by_s) then [] else [(100 + n, 43)]) else []))
        ++ (if plan_m =? rp_impl_plan p then [] else [(100 + n, 31)])
        ++ (if wf then (if cls plan_s =? cls (rp_impl_plan p) then [] else [(100 + n, 32)])
                       ++ (if cls plan_m =? cls plan_s then [] else [(100 + n, 33)]) else [])
